@@ -465,7 +465,10 @@ fn record(args: &Args) {
             out.mark_distinct(format!("{run}:{call}"));
             let mut ids = Vec::new();
             let mut ev;
-            let op = if call == 0 && rng.chance(1, 2) { 4 } else { rng.below(4) };
+            let mut op = if call == 0 && rng.chance(1, 2) { 4 } else { rng.below(4) };
+            if op == 3 && top_run && y.is_empty() {
+                op = 0; // real `now` is not representable in a shifted run
+            }
             let res = match op {
                 0 => {
                     let s = pick(&mut rng, &generated);
